@@ -56,7 +56,10 @@ func operand(node ast.Node) error {
 	case *ast.IndexExpression:
 		parts = []ast.Expression{n.Left, n.Index}
 	case *ast.CallExpression:
-		parts = n.Arguments
+		// The callee is not compiled, only its printed form is used
+		// as the name of the function: whatever is wrong with it
+		// would go unnoticed.
+		parts = append([]ast.Expression{n.Function}, n.Arguments...)
 	}
 	for _, p := range parts {
 		if err := operand(p); err != nil {
